@@ -23,6 +23,7 @@ type Directive struct {
 	Blank      bool     // a blank line precedes this line (inside blocks) or this statement (top level)
 	BlankAfter bool     // inside blocks: a blank line between the leading comments and the line
 	Marker     int      // spelling of the indirect marker (0 = canonical "// indirect" / "// indirect; text")
+	EmptyEOL   int      `json:",omitempty"` // the line has no end-of-line text but ends in comment slashes: 1 "//", 2 "// ", 3 "//\t ", 4 "//  "
 	Quote      []bool   // per argument: force double quotes
 	ID         int      // identity of the line, for the comment-survival checks
 }
@@ -282,6 +283,9 @@ func (g *genState) line(verb string) Directive {
 		d.Quote[i] = gen.Chance(t, 12, "forcequote")
 	}
 	g.comments(&d)
+	if !g.o.NoComments && d.Suffix == "" && !d.Indirect && verb != "retract" && verb != "module" && gen.Chance(t, 6, "emptyeol") { // (not where comments carry a value: rationale, deprecation)
+		d.EmptyEOL = 1 + gen.Uniform(t, 4, "emptyeolkind") // comment slashes with nothing, or only blanks, after them
+	}
 	if verb == "require" && IsIndirectMarker(d.Suffix) {
 		d.Suffix = "note" // would change the meaning of the line
 	}
@@ -519,6 +523,8 @@ func (d Directive) SuffixComment() string {
 		return []string{"// indirect", "//indirect", "//  indirect", "//\tindirect", "// indirect \t", "//\u00a0indirect", "// indirect\u00a0"}[d.Marker%7]
 	case d.Suffix != "":
 		return "// " + d.Suffix
+	case d.EmptyEOL >= 1 && d.EmptyEOL <= 4:
+		return []string{"", "//", "// ", "//\t ", "//  "}[d.EmptyEOL]
 	}
 	return ""
 }
